@@ -107,6 +107,7 @@ Fixpoint to_js (fm : bool) (en : env) (e : expr) {struct e} : js :=
     end
   | ENeg x => JUn "-" (to_js fm en x)
   | ENot x => JUn "!" (to_js fm en x)
+  | EField x => JUn "field" (to_js fm en x)
   | ECall f args => JCall (nm en f) (map (to_js fm en) args)
   | ELCall f args => JCall (nth f (e_lfuncs en) "") (map (to_js fm en) args)
   | EList items => JList (map (to_js fm en) items)
@@ -153,7 +154,7 @@ Fixpoint js_ok (en : env) (e : expr) {struct e} : Prop :=
   match e with
   | ELoc i => match nth i (e_locals en) (Leaf KLocal "" 0 true) with Leaf KLocal _ _ _ => True | _ => False end
   | EBin _ x y => js_ok en x /\ js_ok en y
-  | ENeg x | ENot x => js_ok en x
+  | ENeg x | ENot x | EField x => js_ok en x
   | ECall f args => plain_call_name (nm en f) = true /\
                     (fix all (l : list expr) : Prop := match l with [] => True | x :: r => js_ok en x /\ all r end) args
   | ELCall f args => plain_call_name (nth f (e_lfuncs en) "") = true /\
@@ -175,7 +176,7 @@ Fixpoint js_ok_args (en : env) (l : list expr) : Prop := match l with [] => True
 Inductive nexpr :=
 | NLit (s : string) | NSym (s : string) | NVar (s : string) | NThis
 | NGlob (s : string) | NProp (owner s : string)
-| NBin (o : binop) (a b : nexpr) | NNeg (a : nexpr) | NNot (a : nexpr)
+| NBin (o : binop) (a b : nexpr) | NNeg (a : nexpr) | NNot (a : nexpr) | NField (a : nexpr)
 | NCall (f : string) (args : list nexpr) | NList (items : list nexpr) | NPList (items : list nexpr)
 | NObj (kind prop : string) (id : nexpr)          (* the prop of sound / sprite / member / field id *)
 | NLastChunk (ty : string) (a : nexpr) | NChunkCount (ty : string) (a : nexpr)
@@ -197,6 +198,7 @@ Fixpoint name_e (fm : bool) (en : env) (e : expr) {struct e} : nexpr :=
   | EBin o x y => NBin o (name_e fm en x) (name_e fm en y)
   | ENeg x => NNeg (name_e fm en x)
   | ENot x => NNot (name_e fm en x)
+  | EField x => NField (name_e fm en x)
   | ECall f args => NCall (nm en f) (map (name_e fm en) args)
   | ELCall f args => NCall (nth f (e_lfuncs en) "") (map (name_e fm en) args)
   | EList items => NList (map (name_e fm en) items)
@@ -270,7 +272,8 @@ Fixpoint read_js (j : js) {struct j} : option nexpr :=
   | JMethod m a c => match binop_of (KMeth m), read_js a, read_js c with Some o, Some x, Some y => Some (NBin o x y) | _, _, _ => None end
   | JSprite m a c => match binop_of (KSpr m), read_js a, read_js c with Some o, Some x, Some y => Some (NBin o x y) | _, _, _ => None end
   | JUn op a => match read_js a with
-                | Some x => if String.eqb op "-" then Some (NNeg x) else if String.eqb op "!" then Some (NNot x) else None
+                | Some x => if String.eqb op "-" then Some (NNeg x) else if String.eqb op "!" then Some (NNot x)
+                            else if String.eqb op "field" then Some (NField x) else None
                 | None => None end
   | JParen a => read_js a
   | JCall f args => option_map (NCall f) (all_some_n (map read_js args))
